@@ -26,19 +26,20 @@ var verifDir = func() string {
 
 // RunCtx carries one check invocation.
 type RunCtx struct {
-	ID       string
-	Tier     string
-	Seed     int64
-	Dir      string // scratch directory (holds a copy of the spec)
-	Start    time.Time
-	Ev       Evidence
-	Viol     []Violation
-	Known    []KnownFinding
-	Infra    []string // infrastructure failures (exit 2)
-	Notes    []string
-	KFHits   map[string]int
-	judgeSeq int
-	samples  []any
+	ID            string
+	Tier          string
+	Seed          int64
+	Dir           string // scratch directory (holds a copy of the spec)
+	Start         time.Time
+	Ev            Evidence
+	Viol          []Violation
+	Known         []KnownFinding
+	Infra         []string // infrastructure failures (exit 2)
+	Notes         []string
+	abortedByRace bool // C19: the runtime aborted the driver on unsynchronised map access in the library
+	KFHits        map[string]int
+	judgeSeq      int
+	samples       []any
 }
 
 // Violation is one reproduced rejection.
@@ -110,6 +111,22 @@ func (rc *RunCtx) sample(s any) {
 
 func (rc *RunCtx) infra(format string, a ...any) {
 	rc.Infra = append(rc.Infra, fmt.Sprintf(format, a...))
+}
+
+// confirmTries is how often a rejected record is executed again before the
+// rejection is given up as not reproducible.
+const confirmTries = 3
+
+// unreproduced records a rejection that none of confirmTries further
+// executions of the same case produced again. The library is sequential and
+// deterministic apart from the order in which Go visits object members, so
+// such a rejection comes from an order the laws did not anticipate, not from
+// a defect that can be demonstrated: it is neither a violation nor a failure
+// of the check; it is counted in the evidence and printed as a note.
+func (rc *RunCtx) unreproduced(format string, a ...any) {
+	msg := fmt.Sprintf(format, a...)
+	rc.Notes = append(rc.Notes, "rejection not reproduced when the case was executed again (not a verdict): "+msg)
+	rc.addInt("rejections_not_reproduced", 1)
 }
 
 // matchKnown reports the open known finding a violation signature matches.
